@@ -314,3 +314,20 @@ def check(ctx, rep):
             ok = _re.search(pat, blob) is not None
             rep.add("R20d", f"log line carries the {what}", ok, ctx.where(lg),
                     "" if ok else f"nothing matching `{pat}` reaches the logged string", key=f"R20d|{what}")
+        # ... and is written whenever log() is called: no path returns without the log write, whatever was logged before
+        silent = []
+        for p in Walker(prog, ctx.resolver).run(lg):
+            if p.kind == "raise":
+                continue
+            if not any(e.kind == "call" and (dotted(e.node.func) or "").endswith("logger.log") for e in p.events):
+                tests = [f"{norm(e.node)[:40]}={bool(e.extra)}" for e in p.events if e.kind == "test" and e.extra is not None]
+                silent.append(", ".join(tests[-2:]) or "unconditionally")
+        rep.add("R20d", "log() writes a line on every path", not silent, ctx.where(lg),
+                f"log() can return without writing anything ({silent[0]}): that failure does not appear in the log" if silent else "",
+                key="R20d|always-writes")
+        # the line is written for every failure, not once per object: no state that suppresses later calls
+        state = [norm(n)[:50] for n in ast.walk(lg.node) if isinstance(n, ast.Assign)
+                 and any(isinstance(t, ast.Attribute) for t in n.targets)] + \
+                [norm(n)[:50] for n in ast.walk(lg.node) if isinstance(n, ast.Global)]
+        rep.add("R20d", "log() keeps no state between calls", not state, ctx.where(lg),
+                f"log() records `{state[0]}`: whether a failure is logged depends on what was logged before" if state else "", key="R20d|stateless")
